@@ -66,6 +66,12 @@ func (a *Account) Read(p []byte) (int, error) {
 
 // HashAndSalt generates a password hash from a users obfuscated plaintext password
 func HashAndSalt(pwd []byte) string {
+	// bcrypt only uses the first 72 bytes of a password and GenerateFromPassword rejects longer input; without the
+	// truncation a longer password produced an empty hash that no password can ever match.
+	if len(pwd) > 72 {
+		pwd = pwd[:72]
+	}
+
 	hash, _ := bcrypt.GenerateFromPassword(pwd, bcrypt.MinCost)
 
 	return string(hash)
